@@ -458,6 +458,47 @@ def shadow_import(ctx):
         shutil.rmtree(tmp, ignore_errors=True)
 
 
+def collected_later(ctx):
+    """what is left of an earlier run (objects kept alive only by reference cycles) is collected at some LATER moment - possibly in the
+    middle of a later doctest: that doctest's outcome is the one it has alone"""
+    from xdoctest import doctest_example
+    import gc
+    earlier = [">>> import sys\n>>> with sys.stdout as out:\n...     pass\n", ">>> import sys\n>>> sys.stdout.close()\n>>> print('into the closed stream')\n",
+               ">>> raise ValueError('an ordinary failure')\n", ">>> print('x')\ny\n"]
+    later = ">>> import gc\n>>> n = gc.collect(); print('after the collection')\nafter the collection\n>>> print('second part')\nsecond part\n"
+    real, real_err = sys.stdout, sys.stderr
+    was_enabled = gc.isenabled()
+    try:
+        gc.collect()
+        gc.disable()                  # (so that the collection happens where the later doctest asks for it, not earlier by chance)
+        alone = observe(doctest_example.DocTest(docsrc=later, lineno=1), None)[0]
+        for first in earlier:
+            for oe in ('return', 'raise'):
+                ctx.evaluations += 1
+                ex1 = doctest_example.DocTest(docsrc=first, lineno=1)
+                ex1.mode = 'native'
+                try:
+                    with warnings.catch_warnings():
+                        warnings.simplefilter('ignore')
+                        ex1.run(on_error=oe, verbose=0)
+                except BaseException:      # noqa
+                    pass
+                finally:
+                    sys.stdout, sys.stderr = real, real_err
+                ex1 = None
+                got = observe(doctest_example.DocTest(docsrc=later, lineno=1), None)[0]
+                sys.stdout, sys.stderr = real, real_err
+                if got != alone or alone != 'passed':
+                    ctx.violation('history-dependence', {
+                        'what': 'a doctest that collects garbage and then prints is %s after an earlier doctest (on_error=%r) whose objects were dropped but not yet collected; alone it is %s' % (got, oe, alone),
+                        'history': [first, later], 'theorem_or_correspondence': 'C11 isolation: remains of an earlier run collected during a later one'}, True)
+                    return
+    finally:
+        sys.stdout, sys.stderr = real, real_err
+        if was_enabled:
+            gc.enable()
+
+
 def moved_cwd(ctx):
     """a module named by a RELATIVE path (as `python -m xdoctest pkg/mod.py` names it): an earlier doctest that leaves the process in
     another working directory must not decide whether a later doctest of that module can still pre-import it"""
@@ -657,6 +698,7 @@ def run(ctx):
     annotation_leak(ctx)
     shadow_import(ctx)
     moved_cwd(ctx)
+    collected_later(ctx)
     pytest_histories(ctx)
     ctx.add_rule('RuntimeState: seeded histories of 1..4 states (default options none/{}/booleans) x 0..4 updates (block/inline, +-REQUIRES unmet a/b/met, +-SKIP) vs the heap model; '
                  'DocTest histories: permutations of 2 and 3 of the 13 doctests of a generated module + seeded histories of 4..7 with repetitions, on re-used and fresh '
